@@ -174,11 +174,15 @@ impl<'a> Lowerer<'a> {
         ctx: &mut CompilerContext<'_>,
         do_debug_info: bool,
     ) -> Result<(Vec<RawInstr>, Option<debug_info::ScriptLoweringInfo>), ErrorReported> {
+        #[cfg(truth_verif)]
+        crate::verif_hooks::pass("lower_sub");
         lower_sub_ast_to_instrs(self, code, def_id, ctx, do_debug_info)
     }
 
     /// Report any errors that can only be reported once all functions have been compiled.
     pub fn finish(mut self, ctx: &CompilerContext<'_>) -> Result<(), ErrorReported> {
+        #[cfg(truth_verif)]
+        crate::verif_hooks::pass("lower_finish");
         let inner = std::mem::replace(&mut self.inner, Default::default());
         std::mem::forget(self);  // disable the panic bomb
         inner.finish(ctx)
